@@ -84,7 +84,12 @@ def extra(report, env):
             r = p.parse(text)
             if not (r['error'] is None and r['result'] == exp and type(r['result']) is type(exp)) and len(fails) < 5:
                 fails.append({'formula': text, 'detail': 'expected exactly %r got %r' % (exp, r)})
-    for s in ['', 'a', 'a b', 'é中', "it's", '1+1', '  ', '\\n', 'x"y'.replace('"', '')]:
+    # quoted literals: exactly the characters between the quotes, whatever they are (full-width forms, ideographic space, symbols that
+    # look like operators or quotes, control characters, characters outside the BMP); seeded texts over that alphabet as well
+    qalpha = list('aZ09 +-*/&=<>(){},;:%^#!?@~$_.|') + ['\t', '\n', 'é', 'ß', '中', '１', '０', '円', 'Ａ', '！', '＂', '＇', '（', '）', '　', '\xa0', '​', '«', '»', '“', '”', '‘',
+                                                      '\U0001F600', '\x01', '\x7f']
+    seeded_texts = [''.join(rng.choice(qalpha) for _ in range(rng.randint(1, 12))) for _ in range(150 if env['tier'] == 'quick' else 3000)]
+    for s in ['', 'a', 'a b', 'é中', "it's", '1+1', '  ', '\\n', 'x"y'.replace('"', ''), '１００円', 'Ａ１', '＂x＂', '　', 'SUM(1,2)', '#N/A', 'TRUE', '1e5', '{1,2}'] + seeded_texts:
         for q in ('"', "'"):
             if q in s:
                 continue
@@ -128,7 +133,7 @@ def extra(report, env):
         if len(outcomes) != 1 and len(fails) < 5:
             fails.append({'formula': 'SUM(%s)' % ref, 'detail': 'the case of the reference changes what the handler sees or the outcome: %s' % sorted(outcomes)[:2]})
     bounded(report, 'C05.lexical', 'whitespace from {space, tab, newline, runs} at every token boundary of 14 token lists (seeded), all 2^n blank '
-            'patterns n<=6 x 3 separators, array literals, seeded literals up to 18+12 digits (exact), quoted texts, label case (every upper/lower pattern of 10 cell / range references, full handler view)', cases, fails)
+            'patterns n<=6 x 3 separators, array literals, seeded literals up to 18+12 digits (exact), quoted texts (18 fixed + seeded texts over a 58-character alphabet incl. full-width forms), label case (every upper/lower pattern of 10 cell / range references, full handler view)', cases, fails)
 
 
 def replay(rp):
